@@ -65,6 +65,9 @@ def phantom(t):
 
 def flat_vec(t, l):
     assert t.sized
+    if t.zst and l not in ("u8", "u16", "le::U16", "be::U16"):
+        # a vector of zero-sized items may legitimately hold L::MAX of them; keep loops over it short
+        l = "u16"
     return T(f"FlatVec<{t.rust}, {l}>", sized=False, portable=t.portable and is_portable_len(l), constrained=t.constrained, depth=t.depth + 1)
 
 
